@@ -11,6 +11,7 @@ convert and the floating/Integer sources are tied to the exact specification by 
 import GivaroModel.Lemmas.ModRingFloat
 import GivaroModel.Model.ModRingInit
 import GivaroModel.Lemmas.ModRingLog16
+import GivaroModel.Lemmas.ModRingGeneric
 namespace Givaro.Props.C04
 open Givaro.Model.ModRing Givaro.Spec.ModRing
 
@@ -640,5 +641,22 @@ theorem log16_convert_init (T : L16) (h : T.Valid) (e : Int) (he : T.okR e) :
   rw [(log16_init_unsigned_exact T h _ hv.1).2]
   exact Int.emod_eq_of_lt hv.1 hv.2
 
+
+/-! ## the generic `Modular<IntType,Compute_t>` (modular-inttype.h, with fixes/C03_3.patch) -/
+
+/-- init from an `Integer`, and from every machine number the element type need not hold (those go through `Integer`) -/
+theorem generic_init_integer_exact (k : GCfg) (hv : k.valid) (p y : Int) (hp : 2 ≤ p) (hm : p ≤ k.maxCard) :
+    k.initZ p y = canonU p y := by
+  have ok := gok_of_valid k hv p hp hm
+  unfold GCfg.initZ canonU
+  exact (ok.small (Int.emod_nonneg _ (by omega)) (by have := Int.emod_lt_of_pos y (by omega : 0 < p); omega)).1
+
+/-- init from a source the element type holds (`Caster<Element>(a)`, then reduce) -/
+theorem generic_init_fit_exact (k : GCfg) (hv : k.valid) (p a : Int) (hp : 2 ≤ p) (hm : p ≤ k.maxCard)
+    (ha : k.E a = a) (hsg : k.sg = false → 0 ≤ a) : k.initFit p a = canonU p a := by
+  unfold GCfg.initFit
+  rw [ha]
+  exact greduce_model (gok_of_valid k hv p hp hm) a hsg
+example : (GCfg.mk 16 true).initFit 101 (-32768) = canonU 101 (-32768) ∧ (GCfg.mk 16 false).initZ 101 (-1) = 100 := by decide
 
 end Givaro.Props.C04
